@@ -125,10 +125,12 @@ class Path:
             self.open_alts.append(i)
             self.assume(cond)
             return True
+        # a decision forced by the path condition is recorded too (without an alternative): the replay of a sibling path must consume
+        # the same decision sequence, or its prefix would be applied to the wrong conditions and the sibling would be lost
         if ft:
-            self.assume(cond); return True
+            self.taken.append(True); self.assume(cond); return True
         if ff:
-            self.assume(z3.Not(cond)); return False
+            self.taken.append(False); self.assume(z3.Not(cond)); return False
         raise PathEnd()
     def require(self, name, goal, meta=None):
         self.obligations.append((name, list(self.pc), goal, meta or {}))
